@@ -209,8 +209,11 @@ class Register(GlobalVar):
             case _:
                 raise ValueError(f"Register {reg_name} has no class assigned.")
 
+        # Rdd, Rss etc. are register pairs. Explicit registers with a repeated digit (R11) are not.
         is_double = ":" in reg_name or (
-            len(reg_name) > 2 and reg_name[1] == reg_name[2]
+            len(reg_name) > 2
+            and reg_name[1] == reg_name[2]
+            and not reg_name[1].isdigit()
         )
         if is_double:
             if reg_name[0] == "R":
